@@ -958,6 +958,11 @@ pub fn c12(rec: &mut Rec, rng: &mut Rng, thorough: bool) {
         let mut all: Vec<(usize, i32)> = vec![]; // (token, fd)
         let mut ok = true;
         for ch in &chunks {
+            // now and then a read finds nothing (would-block / interrupted) while descriptors are on hand: they stay
+            if i % 3 == 1 && rng.chance(1, 4) {
+                d.rerr(rec, *rng.pick(&[libc::EAGAIN, libc::EINTR]));
+                rec.count("c12:empty-read-between");
+            }
             let nf = match rng.below(10) {
                 0..=4 => 0,
                 5..=7 => rng.range(1, 3),
